@@ -226,3 +226,55 @@ Qed.
 (* a shape all of whose axes are variadic admits rank 0 *)
 
 
+
+(* ---------- C20: the reducer round trip ---------- *)
+Definition wf_built (b : built) : Prop := parse_dims (b_dimstr b) = Ok (b_dims b).
+
+Lemma make_flat_wf d A s b : (A = TAny \/ exists id, A = TClass id) -> make_array d A s = MBuilt b -> wf_built b.
+Proof.
+  intros HA H. unfold make_array in H. destruct (parse_dims s) as [d0|c] eqn:E; [|discriminate].
+  destruct HA as [->|[id ->]]; inversion H; subst; exact E.
+Qed.
+
+Lemma make_nested_wf d2 b1 s2 b : wf_built b1 -> make_array d2 (TNested b1) s2 = MBuilt b -> wf_built b.
+Proof.
+  intros W H. unfold make_array in H. destruct (parse_dims s2) as [dd2|c] eqn:E2; [|discriminate].
+  pose proof (parse_concat (b_dimstr b1) s2 (b_dims b1) dd2 W E2) as Hc.
+  destruct (match d2, b_dtypes b1 with None, x => Some x | Some o, None => Some (Some o) | Some o, Some i => match filter (fun x => smem x i) o with [] => None | l => Some (Some l) end end) as [dt|]; [|discriminate].
+  unfold wf_built. destruct (ivar (b_dims b1)) as [i|] eqn:Ev1; destruct (ivar dd2) as [j|] eqn:Ev2; inversion H; subst; cbn [b_dimstr b_dims]; exact Hc.
+Qed.
+
+Lemma strlist_eqb_eq' a : forall b, strlist_eqb a b = true -> a = b.
+Proof. induction a as [|x a IH]; destruct b as [|y b]; cbn; try congruence. intros H. apply andb_true_iff in H as [H1 H2]. apply String.eqb_eq in H1. subst. f_equal. now apply IH. Qed.
+
+Lemma odt_eqb_eq a b : odt_eqb a b = true -> a = b.
+Proof. destruct a, b; cbn; try congruence. intros H. f_equal. now apply strlist_eqb_eq'. Qed.
+
+(* every annotation that can be built -- flat or nested to any depth -- comes back from the reducer with the
+   same array type, the same dims and the same (effective) dtypes *)
+Theorem reducer_roundtrip b : wf_built b ->
+  exists b', reduce_rebuild b = MBuilt b' /\ b_dims b' = b_dims b /\ b_dtypes b' = b_dtypes b /\ b_any b' = b_any b /\
+             (b_any b = false -> b_cls b' = b_cls b).
+Proof.
+  intros W. unfold reduce_rebuild, make_array. rewrite W.
+  destruct (b_any b) eqn:Ea.
+  - destruct (odt_eqb (b_cat b) (b_dtypes b)) eqn:Eo; cbn [b_dtypes]; rewrite Eo.
+    + eexists. split; [reflexivity|]. cbn. apply odt_eqb_eq in Eo. repeat split; auto. discriminate.
+    + eexists. split; [reflexivity|]. cbn. repeat split; auto. discriminate.
+  - destruct (odt_eqb (b_cat b) (b_dtypes b)) eqn:Eo; cbn [b_dtypes]; rewrite Eo.
+    + eexists. split; [reflexivity|]. cbn. apply odt_eqb_eq in Eo. repeat split; auto.
+    + eexists. split; [reflexivity|]. cbn. repeat split; auto.
+Qed.
+
+(* the reducer before the fix commit (x.dtype[x.array_type, x.dim_str]) widened nested annotations *)
+Definition reduce_rebuild_old (b : built) : mres :=
+  make_array (b_cat b) (if b_any b then TAny else TClass (b_cls b)) (b_dimstr b).
+
+Theorem old_reducer_refuted :
+  exists b b', wf_built b /\ reduce_rebuild_old b = MBuilt b' /\ b_dtypes b' <> b_dtypes b.
+Proof.
+  destruct (make_array (Some ["float32"; "float64"]) (TClass 1) "a") as [b1| | |] eqn:E1; try (vm_compute in E1; discriminate).
+  destruct (make_array None (TNested b1) "b") as [b| | |] eqn:E2; try (vm_compute in E1; inversion E1; subst; vm_compute in E2; discriminate).
+  exists b. vm_compute in E1. inversion E1; subst. vm_compute in E2. inversion E2; subst.
+  eexists. split; [vm_compute; reflexivity|]. split; [vm_compute; reflexivity|]. vm_compute. discriminate.
+Qed.
